@@ -258,7 +258,7 @@ def job_history(gen, dim, seq, tier):
     return out
 
 
-def job_mesh(points, tier):
+def job_mesh(points, tier, opaque=False):
     """SRF.mesh on a meshio mesh with several cell blocks: the value stored for a cell (point) is the field of the same seed at
     its centroid (at the point), whatever the number, order and sizes of the blocks"""
     gs = setup()
@@ -277,6 +277,24 @@ def job_mesh(points, tier):
         sym.assume(v > 0)
         sym.assume(l > 0)
         srf, model = make_srf(gs, "RandMeth", 2, dict(var=v, len_scale=l), seed=7)
+        if opaque:
+            # ordering only: the field is an uninterpreted function of the (isometrised) position -- locality of the real
+            # generators is the subject of the other jobs; a mis-ordered block then differs by a function value the solver is
+            # free to choose
+            FLD = z3.Function("field_at", z3.RealSort(), z3.RealSort(), z3.RealSort())
+
+            class OpaqueGen:
+                value_type = "scalar"
+                name = "opaque"
+
+                def update(self, model=None, seed=None):
+                    pass
+
+                def __call__(self, pos, add_nugget=True):
+                    pos = rnp.asarray(pos, dtype=object)
+                    return rnp.array([Sym(FLD(lift(pos[0, i]), lift(pos[1, i]))) for i in range(pos.shape[1])], dtype=object)
+
+            srf._generator = OpaqueGen()
         mesh = meshio.Mesh(pts, cells)
         srf.mesh(mesh, points=points, name="fld", seed=11)
         if points == "centroids":
@@ -291,7 +309,7 @@ def job_mesh(points, tier):
         return got, want
 
     for pi, p in enumerate(explore(run, max_paths=16)):
-        base = f"C11/mesh/{points}/path{pi}"
+        base = f"C11/mesh/{points}{'/opaque field' if opaque else ''}/path{pi}"
         if p.exc is not None:
             out.append(rec(base, "error", detail=f"{p.exc!r} {p.tb}"))
             continue
@@ -345,7 +363,7 @@ def job_seed_identity(gen, dim, tier):
 
 
 def jobs(tier, seed):
-    js = [Job("mesh-centroids", job_mesh, "centroids", tier), Job("mesh-points", job_mesh, "points", tier)]
+    js = [Job("mesh-centroids", job_mesh, "centroids", tier), Job("mesh-points", job_mesh, "points", tier), Job("mesh-centroids-opaque", job_mesh, "centroids", tier, True), Job("mesh-points-opaque", job_mesh, "points", tier, True)]
     for gen in GENS:
         for dim in (1, 2):
             js.append(Job(f"locality-{gen}-d{dim}", job_locality, gen, dim, tier))
